@@ -77,11 +77,16 @@ def handle (toks : List String) (impl : String) : Verdict :=
     | none => badOp "blocks"
     | some c =>
       let enc := Rpki.IpDer.encodeBlocks c
-      { model := some (toHex (enc.map UInt8.ofNat)),
-        oracle := match (parseHex impl).map (·.map UInt8.toNat) with
-          | none => some "unreadable"
-          | some der => if Rpki.IpDer.decodeBlocks 128 der = some c then none
-                        else some "the encoded IP blocks do not decode back to the same set" }
+      { model := some (toHex (enc.map UInt8.ofNat) ++ " rt-same"),
+        oracle := match impl.splitOn " " with
+          | [h, rt] =>
+            (match (parseHex h).map (·.map UInt8.toNat) with
+            | none => some "unreadable"
+            | some der =>
+              if rt ≠ "rt-same" then some s!"the library's reader does not read back the IP blocks the library wrote ({rt})"
+              else if Rpki.IpDer.decodeBlocks 128 der = some c then none
+              else some "the encoded IP blocks do not decode back to the same set")
+          | _ => some "unreadable result" }
   | ["as-der", h] =>
     match (parseHex h).map (·.map UInt8.toNat) with
     | none => badOp "hex"
@@ -101,11 +106,16 @@ def handle (toks : List String) (impl : String) : Verdict :=
     | none => badOp "blocks"
     | some cl =>
       let enc := Rpki.AsDer.encodeExt cl
-      { model := some (toHex (enc.map UInt8.ofNat)),
-        oracle := match (parseHex impl).map (·.map UInt8.toNat) with
-          | none => some "unreadable"
-          | some der => if Rpki.AsDer.decodeExt der = some cl then none
-                        else some "the encoded AS resources extension does not decode back to the same set" }
+      { model := some (toHex (enc.map UInt8.ofNat) ++ " rt-same"),
+        oracle := match impl.splitOn " " with
+          | [h, rt] =>
+            (match (parseHex h).map (·.map UInt8.toNat) with
+            | none => some "unreadable"
+            | some der =>
+              if rt ≠ "rt-same" then some s!"the library's reader does not read back the AS resources the library wrote ({rt})"
+              else if Rpki.AsDer.decodeExt der = some cl then none
+              else some "the encoded AS resources extension does not decode back to the same set")
+          | _ => some "unreadable result" }
   | ["as-parse", _] =>
     { oracle := if impl.startsWith "ok-inverted" then some "text with lower bound above upper bound accepted"
                 else if impl.startsWith "ok " then checkSet M32 asTag (impl.drop 3).toString [] (fun x => (parseTagged (impl.drop 3).toString).any (fun tb => memb (tb.map (·.1)) x))
